@@ -278,6 +278,15 @@ class CommentStyle:
                 end = i
                 if line.endswith(cls.MULTI_LINE.end):
                     break
+                # Do not search for a later end of comment: everything up
+                # to there would be taken for this comment block.
+                if cls.MULTI_LINE.end in (
+                    line[len(cls.MULTI_LINE.start) :] if i == 0 else line
+                ):
+                    raise CommentParseError(
+                        "Comment block is followed by other text on the"
+                        " same line"
+                    )
             else:
                 raise CommentParseError("Comment block never delimits")
 
